@@ -319,6 +319,9 @@ def run_unit(unit, repo, workdir, logdir, timeout_s=600):
         res["status"], res["why"] = "undecided", "verus produced no JSON (front-end error): " + err[-400:]
         return res
     vr = j.get("verification-results", {})
+    if "Internal Verus Error" in err or "thread 'rustc'" in err and "panicked at" in err:
+        res["status"], res["why"] = "undecided", "verus crashed (internal error): " + first_error(err[err.find("panicked at"):])[:200]
+        return res
     if vr.get("encountered-vir-error") or ("verified" not in vr):
         res["status"], res["why"] = "undecided", "verus front-end / dialect error: " + first_error(err)
         return res
